@@ -118,8 +118,16 @@ class Check(PropertyCheck):
                 res.append(("frame-count", f"{len(frames)} frames for a history of {len(hist)}"))
                 return res
             # independent reconstruction: start/end of the first k entries from precedence + machine order
-            import oracles
             placed = []
+            ends = []
+            mf, jf = {}, {}
+            for j, p, m in hist:
+                st = max(mf.get(m, 0), jf.get(j, 0))
+                mf[m] = jf[j] = st + impl.jobs[j][p][1]
+                ends.append(st + impl.jobs[j][p][1])
+            xlim = out.split()[1]
+            if xlim != str(max(ends)):
+                res.append(("frame-xlim", f"the frames' time axis ends at {xlim}, the recorded history's makespan is {max(ends)}"))
             mach_free, job_free = {}, {}
             for k, (j, p, m) in enumerate(hist, start=1):
                 dur = impl.jobs[j][p][1]
